@@ -41,6 +41,74 @@ TOL_SCALAR_REL = 1e-11  # sums of the same eigenvalues taken in a different orde
 F_LETTERS = (0.5, 0.9, 0.99, 0.999999)
 F_INVALID = (0.0, -0.25, 1.5)
 
+# ---- argument forms -----------------------------------------------------------------------------------
+# The same payload (values) presented in another legal representation.  A form is a letter only where the
+# unchanged tree accepts it (probed on /repo, see `assumptions`); expectations are always computed in float64
+# from the values.  Data forms (7th field of a root spec):
+#   f64                       float64 C-contiguous ndarray / rows (the default)
+#   i64 i32 i16 u8 bool       integer-valued payload stored with that dtype
+#   f32                       float32-representable payload stored as float32 (menpo then computes in float32)
+#   fortran strided readonly  float64 values in a Fortran-ordered / non-contiguous / read-only array
+#   pylists int-pylists tuple rows given as python lists of floats / of ints, samples given as a tuple
+INT_FORMS = {"i64": np.int64, "i32": np.int32, "i16": np.int16, "u8": np.uint8, "bool": np.bool_}
+VALUE_FORMS = tuple(INT_FORMS) + ("int-pylists", "f32")  # forms that constrain the payload values
+# float32 models: menpo's own arithmetic is single precision (worst errors observed over seeds 0..9, every
+# float32 data letter, every (kept, active) pair: orthonormality 7.6e-7, eigenvalues 3.1e-6 relative, vectors
+# 1.7e-6, mean 3.4e-8; margins >= 100x; the other forms stay below 4e-14 against the float64 tolerances)
+F32_TOL = {"orth": 2e-4, "eig": 1e-3, "vec": 5e-4, "mean": 1e-5, "scalar": 1e-4, "tie": 1e-4, "bound": 5e-2}
+F64_TOL = {"orth": TOL_ORTH, "eig": TOL_EIG_REL, "vec": TOL_VEC, "mean": 1e-13, "scalar": TOL_SCALAR_REL, "tie": F_TIE_MARGIN, "bound": 1e-3}
+
+# forms of a weight vector / of a vector to project (integer-valued payload, so every form holds it exactly)
+WEIGHT_FORMS = ("list", "tuple", "intlist", "npscalars", "i64", "i32", "i16", "i8", "f32", "f16", "readonly", "strided")
+VECTOR_FORMS = ("i64", "i32", "i16", "i8", "f32", "f16", "readonly", "strided")
+# forms of the scalar given to n_active_components / trim_components: op kind -> (base kind, constructor)
+SCALAR_FORMS = {
+    "actnp": ("act", np.int64),
+    "act-i32": ("act", np.int32),
+    "act-u8": ("act", np.uint8),
+    "act-0d": ("act", lambda k: np.array(int(k))),
+    "act-bool": ("act", bool),
+    "actf-np": ("actf", np.float64),
+    "trim-np": ("trim", np.int64),
+    "trim-i32": ("trim", np.int32),
+    "trimf-np": ("trimf", np.float64),
+}
+
+
+def as_form(a, form):
+    """a 1-D float64 array of integer values in another representation."""
+    a = np.asarray(a, dtype=float)
+    if form == "list":
+        return [float(v) for v in a]
+    if form == "tuple":
+        return tuple(float(v) for v in a)
+    if form == "intlist":
+        return [int(v) for v in a]
+    if form == "npscalars":
+        return [np.float64(v) for v in a]
+    if form in ("i64", "i32", "i16", "i8", "f32", "f16"):
+        return a.astype({"i64": np.int64, "i32": np.int32, "i16": np.int16, "i8": np.int8, "f32": np.float32, "f16": np.float16}[form])
+    if form == "readonly":
+        b = a.copy()
+        b.setflags(write=False)
+        return b
+    if form == "strided":
+        return np.repeat(a, 2)[::2]
+    raise ValueError(form)
+
+
+def quantise(x, form, r):
+    """payload values that the form can hold exactly."""
+    if form in ("i64", "i32", "i16", "int-pylists"):
+        return np.round(x * 8.0)
+    if form == "u8":
+        return np.clip(np.round((x - x.mean()) * 6.0 + 128.0), 0, 255)
+    if form == "bool":
+        return (r.rand(*x.shape) > 0.5).astype(float)
+    if form == "f32":
+        return x.astype(np.float32).astype(np.float64)
+    return x
+
 
 # ------------------------------------------------------------------------------------------------
 # data letters and the reference model (numpy only)
@@ -56,9 +124,10 @@ def reference(X, centre):
     return mean, lam[keep], vt[keep]
 
 
-def gen_data(n, d, centre, variant, seed):
+def gen_data(n, d, centre, variant, seed, form="f64"):
     """n x d data matrix with a well separated spectrum (guarded), both for centred and uncentred use."""
-    for attempt in range(200):
+    vform = form if form in VALUE_FORMS else "f64"  # forms that only change the container share the payload
+    for attempt in range(3000):
         r = rs(seed, "c10-data", n, d, int(centre), variant, attempt)
         k = min(n - 1 if centre else n, d)
         if variant == "rankdef":
@@ -73,6 +142,8 @@ def gen_data(n, d, centre, variant, seed):
             x = x + 3.0 * r.rand(d) + 0.5
         elif variant != "rankdef":
             x = x + 0.4 * r.rand(d)  # uncentred models are built on data with a non-zero mean
+        if vform != "f64":
+            x = quantise(x, vform, rs(seed, "c10-quant", n, d, int(centre), vform, attempt))
         mean, lam, vt = reference(x, centre)
         if len(lam) != k:
             continue
@@ -94,11 +165,11 @@ OBJ_DIMS = {
 }
 
 
-def to_object(kind, x):
+def to_object(kind, x, dtype=float):
     from menpo.image import Image, MaskedImage
     from menpo.shape import PointCloud
 
-    x = np.array(x, dtype=float)
+    x = np.array(x, dtype=float).astype(dtype)
     if kind == "pc":
         return PointCloud(x.reshape(3, 2))
     if kind == "pc3":
@@ -109,7 +180,7 @@ def to_object(kind, x):
         return Image(x.reshape(2, 1, 3))
     if kind == "mimg":
         mask = np.array([[True, False, True], [False, True, False]])
-        px = np.zeros((2, 2, 3))
+        px = np.zeros((2, 2, 3), dtype=dtype)
         px[:, mask] = x.reshape(2, 3)
         return MaskedImage(px, mask=mask)
     raise ValueError(kind)
@@ -150,23 +221,54 @@ class Api(object):
         return self._v(self.m.project_out(self._o(x) if self.obj else np.array(x)), "project_out", fails)
 
 
+def present(X, form):
+    """the payload as an ndarray of the given form (always a private copy)."""
+    if form in INT_FORMS:
+        return X.astype(INT_FORMS[form])
+    if form == "f32":
+        return X.astype(np.float32)
+    if form == "fortran":
+        return np.asfortranarray(X.copy())
+    if form == "strided":
+        big = np.zeros((2 * X.shape[0], 2 * X.shape[1]))
+        big[::2, ::2] = X
+        return big[::2, ::2]
+    if form == "readonly":
+        a = X.copy()
+        a.setflags(write=False)
+        return a
+    return X.copy()
+
+
 def construct(root, X, max_n=None):
     """the real constructor call of a data letter (always on private copies of the data)."""
     from menpo.model import PCAModel, PCAVectorModel
 
-    kind, n, d, centre, variant, inkind = root
+    kind, n, d, centre, variant, inkind = root[:6]
+    form = root[6] if len(root) > 6 else "f64"
     centre = bool(centre)
     if kind == "vec":
+        data = present(X, form)
         if inkind == "array":
-            return PCAVectorModel(X.copy(), centre=centre, max_n_components=max_n)
+            return PCAVectorModel(data, centre=centre, max_n_components=max_n)
         if inkind == "array-copy":
-            return PCAVectorModel(X.copy(), centre=centre, max_n_components=max_n, inplace=False)
+            return PCAVectorModel(data, centre=centre, max_n_components=max_n, inplace=False)
+        rows = [row.copy() for row in data]
+        if form == "pylists":
+            rows = [[float(v) for v in row] for row in rows]
+        elif form == "int-pylists":
+            rows = [[int(v) for v in row] for row in rows]
+        elif form == "tuple":
+            rows = tuple(rows)
         if inkind == "list":
-            return PCAVectorModel([row.copy() for row in X], centre=centre, max_n_components=max_n)
+            return PCAVectorModel(rows, centre=centre, max_n_components=max_n)
         if inkind == "list-ns":
-            return PCAVectorModel([row.copy() for row in X], centre=centre, n_samples=n, max_n_components=max_n, inplace=False)
+            return PCAVectorModel(rows, centre=centre, n_samples=n, max_n_components=max_n, inplace=False)
         raise ValueError(inkind)
-    objs = [to_object(kind, row) for row in X]
+    dtype = INT_FORMS.get(form, np.float32 if form == "f32" else float)
+    objs = [to_object(kind, row, dtype) for row in X]
+    if form == "tuple":
+        objs = tuple(objs)
     if inkind == "list":
         return PCAModel(objs, centre=centre, max_n_components=max_n)
     if inkind == "iter":
@@ -174,6 +276,62 @@ def construct(root, X, max_n=None):
     if inkind == "list-copy":
         return PCAModel(objs, centre=centre, max_n_components=max_n, inplace=False)
     raise ValueError(inkind)
+
+
+def legal(root):
+    """argument forms that the unchanged tree accepts and handles (probed on /repo); everything else is
+    not a letter (see `assumptions` for what is left out and why)."""
+    kind, n, d, centre, variant, inkind = root[:6]
+    form = root[6] if len(root) > 6 else "f64"
+    inplace = inkind in ("array", "list", "iter")
+    if form in INT_FORMS or form == "int-pylists":
+        if inplace:
+            return False  # the in-place centring / scaling of an integer matrix is refused (casting error)
+        if not centre and form not in ("i64", "i32", "int-pylists"):
+            return False  # bool: subtraction refused; 8/16-bit: the second moments overflow the data dtype
+    if form == "readonly" and inplace:
+        return False
+    if form == "f32" and centre and d >= n:
+        return False  # single-precision noise on the null direction of the Gram matrix passes the 1e-10 floor
+    if form in ("pylists", "int-pylists") and not (kind == "vec" and inkind.startswith("list")):
+        return False
+    if form == "tuple" and not inkind.startswith("list"):
+        return False
+    if form in ("fortran", "strided", "readonly") and not (kind == "vec" and inkind.startswith("array")):
+        return False
+    return True
+
+
+def form_roots():
+    """data letters in other argument forms: cross products filtered by `legal`."""
+    cand = []
+    shapes = [(6, 3), (3, 5), (4, 4)]
+    for form in ("i64", "i32", "i16", "u8", "bool"):
+        for n, d in shapes:
+            for c in (1, 0):
+                cand.append(("vec", n, d, c, "full", "array-copy", form))
+                if form in ("i64", "u8", "bool"):
+                    cand.append(("vec", n, d, c, "full", "list-ns", form))
+    for n, d in shapes + [(8, 3)]:
+        for c in (1, 0):
+            for ink in ("array", "array-copy", "list"):
+                cand.append(("vec", n, d, c, "full", ink, "f32"))
+    for n, d in shapes[:2]:
+        for c in (1, 0):
+            for form in ("fortran", "strided", "readonly"):
+                for ink in ("array", "array-copy"):
+                    cand.append(("vec", n, d, c, "full", ink, form))
+            for form in ("pylists", "tuple", "int-pylists"):
+                for ink in ("list", "list-ns"):
+                    cand.append(("vec", n, d, c, "full", ink, form))
+    for kind, ns, forms in (("pc", (4, 8), ("i64", "i32", "tuple")), ("img", (3, 6), ("u8", "f32", "bool")), ("mimg", (8,), ("f32", "i16"))):
+        for n in ns:
+            for c in (1, 0):
+                for form in forms:
+                    for ink in ("list", "list-copy"):
+                        cand.append((kind, n, OBJ_DIMS[kind], c, "full", ink, form))
+    cand.append(("img", 6, 4, 0, "full", "iter", "f32"))
+    return [r for r in cand if legal(r)]
 
 
 # ------------------------------------------------------------------------------------------------
@@ -204,6 +362,7 @@ class C10(Check):
                 for c in (1, 0):
                     out.append((kind, n, OBJ_DIMS[kind], c, "full", "list"))
         out += [("pc", 8, 6, 1, "full", "iter"), ("img", 3, 4, 0, "full", "iter"), ("mimg", 6, 6, 1, "full", "iter"), ("pc", 4, 6, 1, "full", "list-copy")]
+        out += form_roots()
         if self.tier == "thorough":
             more = [(2, 2), (3, 1), (2, 1), (3, 3), (7, 9), (9, 7), (8, 8), (10, 4), (4, 10), (9, 10), (11, 10)]
             for n, d in more:
@@ -220,8 +379,10 @@ class C10(Check):
 
     # ------------------------------------------------------------------ state
     def build(self, root):
-        kind, n, d, centre, variant, inkind = root
-        X = gen_data(n, d, bool(centre), variant, self.seed)
+        kind, n, d, centre, variant, inkind = root[:6]
+        form = root[6] if len(root) > 6 else "f64"
+        tol = F32_TOL if form == "f32" else F64_TOL
+        X = gen_data(n, d, bool(centre), variant, self.seed, form)
         mean, lam, vt = reference(X, bool(centre))
         model = construct(root, X)
         K = len(lam)
@@ -231,24 +392,26 @@ class C10(Check):
         fmap = {}
         for f in F_LETTERS:
             g = f
-            while np.min(np.abs(cum - g)) < F_TIE_MARGIN:
-                g -= 3 * F_TIE_MARGIN
+            while np.min(np.abs(cum - g)) < tol["tie"]:
+                g -= 3 * tol["tie"]
             fmap[f] = g
         # boundary letters: just below and just above every cumulative variance ratio of the original spectrum
         # (one letter per case split of the fraction rule; they stay meaningful after trimming, where a rule
         # that normalised by the kept instead of the original variance would count differently)
         for i in range(K):
-            lo = cum[i] - 1e-3 * (cum[i] - (cum[i - 1] if i else 0.0))
+            lo = cum[i] - tol["bound"] * (cum[i] - (cum[i - 1] if i else 0.0))
             fmap["b%d-" % i] = float(lo)
             if i + 1 < K:
-                fmap["b%d+" % i] = float(cum[i] + 1e-3 * (cum[i + 1] - cum[i]))
-        r = rs(self.seed, "c10-probe", n, d, centre, variant)
+                fmap["b%d+" % i] = float(cum[i] + tol["bound"] * (cum[i + 1] - cum[i]))
+        r = rs(self.seed, "c10-probe", n, d, centre, variant, form)
         scale = float(np.abs(X).max())
         probes = [mean + scale * r.randn(d), scale * r.randn(d), X[0].copy(), X[-1].copy()]
         wrand = r.randn(K)
         return {
             "root": root,
             "kind": kind,
+            "form": form,
+            "tol": tol,
             "X": X,
             "centre": bool(centre),
             "mean": mean,
@@ -277,10 +440,21 @@ class C10(Check):
     def ops(self, st, level):
         K = st["K"]
         out = []
+        if self.tier == "quick" and st.get("form", "f64") != "f64" and level >= 2:
+            # data letters in other argument forms: every (kept, active) state is reached and verified
+            # (two letters); the third level is left to the float64 letters and to the thorough tier
+            return out
         for k in range(-1, K + 2):
             out.append(("act", k))
         for k in sorted(set([0, 1, K, K + 1])):
             out.append(("actnp", k))
+        # the same values given as other scalar forms
+        for kind in ("act-i32", "act-u8", "act-0d"):
+            for k in (0, 1, K + 1):
+                out.append((kind, k))
+        out += [("act-bool", 1), ("act-bool", 0)]
+        for f in (0.9, 0.999999, 0.0):
+            out.append(("actf-np", f))
         for f in F_LETTERS + F_INVALID:
             out.append(("actf", f))
         bounds = ["b%d%s" % (i, sgn) for i in range(K) for sgn in "-+" if "b%d%s" % (i, sgn) in st["fmap"]]
@@ -293,12 +467,20 @@ class C10(Check):
             out.append(("trimf", f))
         for b in bounds:
             out.append(("trimf", b))
+        for kind in ("trim-np", "trim-i32"):
+            for k in (0, 1, K + 1):
+                out.append((kind, k))
+        for f in (0.9, 0.0):
+            out.append(("trimf-np", f))
         return out
 
     # ------------------------------------------------------------------ model of one step
     def _expect(self, st, op):
         """-> list of allowed outcomes; an outcome is 'raise' or (kept, active)."""
         kind, a = op
+        form_kind = kind
+        kind = SCALAR_FORMS[kind][0] if kind in SCALAR_FORMS else kind
+        numpy_int = form_kind in SCALAR_FORMS and kind in ("act", "trim") and form_kind != "act-bool"
         kept, active = st["kept"], st["active"]
         lam, tot = st["lam"], st["tot"]
 
@@ -309,9 +491,9 @@ class C10(Check):
                 return None
             return int(np.sum(cum < g)) + 1
 
-        if kind == "act":
+        if kind == "act" and not numpy_int:
             return ["raise"] if a < 1 else [(kept, min(a, kept))]
-        if kind == "actnp":
+        if kind == "act":
             if a < 1:
                 return ["raise"]
             if a > kept:
@@ -327,6 +509,8 @@ class C10(Check):
                 return [(active, active)]
             if a < 1:
                 return ["raise"]
+            if numpy_int and a > kept:
+                return ["raise", (kept, kept)]
             k = min(a, kept)
             return [(k, k)]
         if kind == "trimf":
@@ -337,10 +521,15 @@ class C10(Check):
     def _do(self, st, op):
         m = st["m"]
         kind, a = op
-        if kind == "act":
+        if kind in SCALAR_FORMS:
+            base, ctor = SCALAR_FORMS[kind]
+            v = ctor(st["fmap"].get(a, a)) if base in ("actf", "trimf") else ctor(a)
+            if base in ("act", "actf"):
+                m.n_active_components = v
+            else:
+                m.trim_components(v)
+        elif kind == "act":
             m.n_active_components = int(a)
-        elif kind == "actnp":
-            m.n_active_components = np.int64(a)
         elif kind == "actf":
             m.n_active_components = float(st["fmap"].get(a, a))
         elif kind == "trim":
@@ -393,16 +582,18 @@ class C10(Check):
 
     def _raise_class(self, st, op):
         kind, a = op
-        if kind in ("actf", "trimf"):
+        base = SCALAR_FORMS[kind][0] if kind in SCALAR_FORMS else kind
+        if base in ("actf", "trimf"):
             g = st["fmap"].get(a, a)
             return "raised-nonpositive" if g <= 0 else "raised-above-kept-variance"
-        if kind == "actnp" and a >= 1:
+        if kind in SCALAR_FORMS and a >= 1:
             return "raised-above-kept"
         return "raised-below-one"
 
     def _ok_class(self, st, old, new, op):
         kind, a = op
-        if kind in ("act", "actnp"):
+        kind = SCALAR_FORMS[kind][0] if kind in SCALAR_FORMS else kind
+        if kind == "act":
             if isinstance(a, int) and a > old[0]:
                 return "clamped"
             return "set-lower" if new[1] < old[0] else "set-all"
@@ -424,6 +615,7 @@ class C10(Check):
             self.note("static:floor-dropped-directions")
         self.note("static:%s-%s" % ("object" if kind != "vec" else "vector", "centred" if st["centre"] else "uncentred"))
         self.note("static:K=%d" % st["K"])
+        self.note("form:%s-%s-%s" % (st["form"], "object" if kind != "vec" else "vector", "centred" if st["centre"] else "uncentred"))
         if m.n_components != st["K"]:
             fails.append(Failure("build", "component-count", "n_components=%r but the data has %d directions of positive variance" % (m.n_components, st["K"])))
             return fails
@@ -444,6 +636,7 @@ class C10(Check):
         kept, active = st["kept"], st["active"]
         lam, tot = st["lam"], st["tot"]
         d = st["X"].shape[1]
+        TOL_EIG_REL = st["tol"]["eig"]
         f = []
         if m.n_components != kept:
             f.append(Failure(where, "component-count", "n_components=%r, model kept=%d" % (m.n_components, kept)))
@@ -486,6 +679,7 @@ class C10(Check):
         n, d = X.shape
         a = st["active"]
         scale = st["scale"]
+        TOL_ORTH, TOL_EIG_REL, TOL_VEC = st["tol"]["orth"], st["tol"]["eig"], st["tol"]["vec"]
         out = []
         side = []
         C = np.array(m.components, dtype=float)
@@ -498,7 +692,7 @@ class C10(Check):
         # mean
         mv = api.mean(side)
         if st["centre"]:
-            out.append(("mean-is-sample-mean", np.max(np.abs(mv - mean)) / scale, 1e-13, "mean %r expected %r" % (mv, mean)))
+            out.append(("mean-is-sample-mean", np.max(np.abs(mv - mean)) / scale, st["tol"]["mean"], "mean %r expected %r" % (mv, mean)))
         else:
             out.append(("mean-is-zero-when-uncentred", float(np.max(np.abs(mv))), 0.0, "mean %r" % (mv,)))
         # eigenvalue = (n-1)-normalised variance of the data along the component (about the model mean)
@@ -566,7 +760,52 @@ class C10(Check):
             e = max(e, np.max(np.abs(np.asarray(m.instance_vector(mixed)).ravel() - api.instance(mixed, side))))
             e = max(e, np.max(np.abs(np.asarray(m.mean_vector) - mv)))
             out.append(("vector-and-object-entry-points-agree", e, 0.0, ""))
+        out.extend(self._argument_forms(st, api, side))
         return out, side
+
+    def _argument_forms(self, st, api, side):
+        """the same weights / the same vector given in another legal form give the same answer.  The payload
+        is integer valued, so every form holds exactly the same numbers; the float64 answer itself is tied to
+        the reference model by the clauses above."""
+        m = st["m"]
+        a = st["active"]
+        d = st["X"].shape[1]
+        tol = st["tol"]["vec"]
+        out = []
+        w = np.array([(-1.0) ** j * (2 + j % 3) for j in range(a)])
+        x = np.clip(np.round(st["probes"][0] / st["scale"] * 15.0), -100, 100)  # |x| <= 100: exact in int8 and float16
+        mag = max(1.0, float(np.max(np.abs(x))))
+        if api.obj:
+            inst = lambda wf: np.array(m.instance(wf).as_vector(), dtype=float)  # noqa
+            proj, rec, pout = m.project_vector, m.reconstruct_vector, m.project_out_vector
+        else:
+            inst = lambda wf: np.array(m.instance(wf), dtype=float).ravel()  # noqa
+            proj, rec, pout = m.project, m.reconstruct, m.project_out
+        flat = lambda v: np.array(v, dtype=float).ravel()  # noqa
+        ref_i = inst(w.copy())
+        for form in WEIGHT_FORMS:
+            got = inst(as_form(w, form))
+            err = np.max(np.abs(got - ref_i)) / max(1.0, st["scale"])
+            back = np.max(np.abs(flat(proj(got)) - w)) / 4.0
+            out.append(("weights-form-%s" % form, max(err, back), tol, "instance(weights as %s) vs instance(float64 weights); project(...) vs the weights" % form))
+            self.note("argform:weights-%s" % form)
+        ref = [flat(f(x.copy())) for f in (proj, rec, pout)]
+        for form in VECTOR_FORMS:
+            e = 0.0
+            for f, r0 in zip((proj, rec, pout), ref):
+                e = max(e, np.max(np.abs(flat(f(as_form(x, form))) - r0)) / mag)
+            out.append(("vector-form-%s" % form, e, tol, "project / reconstruct / project_out of the vector as %s vs as float64" % form))
+            self.note("argform:vector-%s" % form)
+        if api.obj:
+            # instances whose own arrays have another dtype
+            ref = [api.project(x), api.reconstruct(x, side), api.project_out(x, side)]
+            for form, dt in (("i64", np.int64), ("f32", np.float32)):
+                o = to_object(st["kind"], x, dt)
+                got = [np.array(m.project(o), dtype=float), api._v(m.reconstruct(o), "reconstruct", side), api._v(m.project_out(to_object(st["kind"], x, dt)), "project_out", side)]
+                e = max(np.max(np.abs(g - r0)) for g, r0 in zip(got, ref)) / mag
+                out.append(("instance-form-%s" % form, e, tol, "project / reconstruct / project_out of an instance with %s arrays" % form))
+                self.note("argform:instance-%s" % form)
+        return out
 
     def _identities(self, st, where):
         out, side = self.measure(st)
@@ -587,7 +826,7 @@ class C10(Check):
         if diff is None:
             for name in ("original_variance", "noise_variance"):
                 x, y = a.get(name), b.get(name)
-                if not (isinstance(x, float) and isinstance(y, float) and abs(x - y) <= TOL_SCALAR_REL * st["tot"]):
+                if not (isinstance(x, float) and isinstance(y, float) and abs(x - y) <= st["tol"]["scalar"] * st["tot"]):
                     diff = ".%s: %r vs %r" % (name, x, y)
                     break
         self.note("fresh:%s" % ("all-kept" if st["kept"] == st["K"] else "trimmed") + ("-all-active" if st["active"] == st["kept"] else "-some-inactive"))
@@ -629,7 +868,23 @@ class C10(Check):
             "fresh:trimmed-all-active",
             "fresh:trimmed-some-inactive",
         ]
+        # argument forms: every data form the tree accepts, every weight / vector / scalar form
+        for form in INT_FORMS:
+            need.append("form:%s-vector-centred" % form)
+        need += ["form:i64-vector-uncentred", "form:i32-vector-uncentred", "form:f32-vector-centred", "form:f32-vector-uncentred"]
+        for form in ("fortran", "strided", "readonly", "pylists", "int-pylists", "tuple"):
+            need += ["form:%s-vector-centred" % form, "form:%s-vector-uncentred" % form]
+        need += ["form:i64-object-centred", "form:i64-object-uncentred", "form:u8-object-centred", "form:f32-object-uncentred", "form:f32-object-centred", "form:tuple-object-centred", "form:bool-object-centred"]
+        need += ["argform:weights-%s" % f for f in WEIGHT_FORMS] + ["argform:vector-%s" % f for f in VECTOR_FORMS]
+        need += ["argform:instance-i64", "argform:instance-f32"]
         out = ["outcome %s never produced" % n for n in need if not notes.get(n)]
+        for kind, (base, _) in sorted(SCALAR_FORMS.items()):
+            done = [k for k in notes if k.startswith(kind + ":") and not k.startswith(kind + ":raised")]
+            refused = [k for k in notes if k.startswith(kind + ":raised")]
+            if not done:
+                out.append("scalar form %s never accepted" % kind)
+            if not refused:
+                out.append("scalar form %s never refused" % kind)
         if not (notes.get("actnp:raised-above-kept") or notes.get("actnp:clamped")):
             out.append("numpy integer beyond the number of components never tried")
         return out
@@ -649,7 +904,12 @@ class C10(Check):
             "object_backed": len([r for r in roots if r[0] != "vec"]),
             "n_d_pairs": sorted(set((r[1], r[2]) for r in roots)),
             "variance_fraction_letters": list(F_LETTERS + F_INVALID),
-            "ops_per_state": "2K+%d (K = number of components of the data letter)" % (len(self.ops({"K": 0}, 0))),
+            "data_forms": sorted(set(r[6] if len(r) > 6 else "f64" for r in roots)),
+            "data_letters_in_other_forms": len([r for r in roots if len(r) > 6]),
+            "weight_forms": list(WEIGHT_FORMS),
+            "vector_forms": list(VECTOR_FORMS),
+            "scalar_forms": sorted(SCALAR_FORMS),
+            "ops_per_state": "4K+%d (K = number of components of the data letter)" % (len(self.ops({"K": 0, "fmap": {}}, 0))),
             "weight_letters_per_state": "active + 3 (unit, mixed, seeded, short)",
             "probe_vectors_per_state": 4,
         }
@@ -658,7 +918,16 @@ class C10(Check):
         return [
             "data letters have a well separated spectrum: lambda[i+1]/lambda[i] <= %g, lambda[last]/lambda[0] >= %g (guarded, redrawn otherwise)" % (GAP_MAX_RATIO, FLOOR_MIN_RATIO),
             "variance-fraction letters keep a distance of %g to every cumulative variance ratio (exactly 1.0 is a floating-point tie and is not used)" % F_TIE_MARGIN,
-            "float64 data only; n <= 11 samples, d <= 10 features",
+            "n <= 11 samples, d <= 10 features; data in the argument forms float64 / int64 / int32 / int16 / uint8 / bool / float32 ndarrays, "
+            "Fortran-ordered, non-contiguous and read-only arrays, lists of rows, lists of python float / int lists, tuples of samples, "
+            "wherever the unchanged tree accepts the form (probed on /repo)",
+            "forms that are NOT letters because the unchanged tree refuses or mishandles them: integer / bool data with inplace=True (casting error; "
+            "PCAModel and PCAVectorModel default to inplace=True), bool data uncentred (TypeError), read-only data with inplace=True (ValueError), "
+            "uint8 / int16 data uncentred (second moments overflow the data dtype: wrong spectrum), float32 data centred with n <= d "
+            "(single-precision noise passes the 1e-10 eigenvalue floor: spurious component), numpy float32 / float16 variance fractions "
+            "(n_active_components = np.float32(0.9) sets 0 active components), lists / tuples as the vector of project / reconstruct / project_out (TypeError)",
+            "float32 models are compared with the float64 reference at orthonormality %g, eigenvalues %g relative, vectors %g" % (F32_TOL["orth"], F32_TOL["eig"], F32_TOL["vec"]),
+            "quick tier: histories of length 3 from the float64 data letters, of length 2 from the data letters in other argument forms",
             "the eigenvalue of an uncentred model is the (n-1)-normalised second moment about the origin [interp]",
             "a numpy integer larger than the number of components may either be refused (ValueError, nothing changes) or clamped",
             "weight vectors and probe vectors: unit, mixed-sign, seeded generic, shorter than the active count; 4 probe vectors per state",
